@@ -26,7 +26,7 @@ def run(check, tier):
                       "more than one list index", "0-d results", "histories longer than 3", "dtype preservation"]
     quick = tier == "quick"
     rnd = random.Random(seed())
-    t = 400 if quick else 2400
+    t = 600 if quick else 2400
     jobs = [dict(fn="indexing__reach", timeout=60), dict(fn="history__reach", timeout=60)]
     for ndim in (1, 2):
         jobs.append(dict(fn="indexing", fixed=dict(ndim=ndim, stem=False), timeout=t, key=f"indexing:ndim={ndim}"))
@@ -45,9 +45,10 @@ def run(check, tier):
         jobs.append(dict(fn="indexing", fixed=dict(ndim=4, k0=k0, k2=rnd.randrange(12), k3=rnd.randrange(12), stem=True),
                          timeout=t, key="indexing:4dstem"))
     none = N_OPS
-    for ndim in (1, 2, 3, 4, 5):
-        jobs.append(dict(fn="history", fixed=dict(ndim=ndim, stem=False, o2=none, o3=none), timeout=t, key=f"op:ndim={ndim}"))
-    jobs.append(dict(fn="history", fixed=dict(ndim=4, stem=True, o2=none, o3=none), timeout=t, key="op:4dstem"))
+    for i1 in (False, True):          # split by the in-place flag: shorter jobs, better balance over the cores
+        for ndim in (1, 2, 3, 4, 5):
+            jobs.append(dict(fn="history", fixed=dict(ndim=ndim, stem=False, o2=none, o3=none, i1=i1), timeout=t, key=f"op:ndim={ndim}"))
+        jobs.append(dict(fn="history", fixed=dict(ndim=4, stem=True, o2=none, o3=none, i1=i1), timeout=t, key="op:4dstem"))
     # a copying operation (possibly a no-op: same shape, zero pad, factor 1) followed by an in-place operation on its
     # result: the result must be a new object and the source must stay untouched
     for nd in ((2,) if quick else (2, 3)):
@@ -59,6 +60,7 @@ def run(check, tier):
         fixed = dict(ndim=nd, stem=st, o1=o1, a2=rnd.randrange(3), b2=rnd.randrange(4), i2=bool(rnd.randrange(2)))
         if quick:
             fixed["o3"] = none
+            fixed["i1"] = bool(rnd.randrange(2))
         else:
             fixed.update(a3=rnd.randrange(3), b3=rnd.randrange(4), i3=bool(rnd.randrange(2)))
         jobs.append(dict(fn="history", fixed=fixed, timeout=t, key=f"history:ndim={nd}"))
